@@ -46,6 +46,10 @@ CLAIMED = {
          "Machine-checked clause theorems (shared request yields the same instance with no re-initialisation; keep_alive keeps it between requests; an exclusive request latches, blocks every other request with ContextError leaving the state untouched, and tears down at its end even under keep_alive; reset_on_error tears down before the exception reaches the caller, skips excepted; without reset_on_error an exception leaves exactly the state of a normal exit). PARTIAL: the equality of the observable trace with the reference model for all programs is not proved; it is decided by evaluation of both Coq models against the real implementation on every generated program (exhaustive pairs of requests over 3 classes x flag combinations, random programs to depth 4).",
          "Trusted: Coq kernel + vm_compute; hand-written models coq/Context.v and coq/ContextSpec.v (rules D1-D10 from the docs, U1-U3 undocumented corners specified as observed); the correspondence harness; no machine faults in C15's programs.",
          "DESIGN.md 8/C15"),
+ "C12": ("Coq: exactness of the host check at every Path-taking entry point + normal-form theorems over an environment model of PurePosixPath; three correspondences (tbot Path = model, real pathlib = model, tbot Path = real pathlib as oracle) + host-taking entry points outside Path (escape, redirection tokens, Background)",
+         "Machine-checked theorems: construct / join / reflected division / relative_to / is_relative_to raise WrongHostError iff an argument belongs to a foreign machine, at_host iff the hosts differ, otherwise the operation is pathlib's on the unwrapped segments; parsing always yields a normal form and re-wrapping a normal form is the identity (why tbot's Path(host, result) pattern is harmless). The behaviour of PurePosixPath itself is an environment model (validated against the real pathlib on every run), and the per-operation agreement of tbot.Path with pathlib is decided by exhaustive differential runs (all segment tuples up to length 2 x every operation, random sequences), not by proof. Known finding: a CPython corner of with_suffix.",
+         "Trusted: Coq kernel + vm_compute; environment model coq/PosixPath.v of CPython 3.12.1 pathlib; the harness (machines compared via Machine.__eq__); match() only via oracle.",
+         "DESIGN.md 8/C12"),
 }
 NOT_YET = "check not built yet (work in progress; will be claimed once its Coq theorems and correspondence check exist)"
 
